@@ -201,8 +201,8 @@ func (hs *clientHandshakeStateGM) doFullHandshake() error {
 				return errors.New("tls: failed to parse certificate from server: " + err.Error())
 			}
 
-			pubKey, _ := cert.PublicKey.(*ecdsa.PublicKey)
-			if pubKey.Curve != sm2.P256Sm2() {
+			pubKey, isEC := cert.PublicKey.(*ecdsa.PublicKey)
+			if !isEC || pubKey.Curve != sm2.P256Sm2() {
 				c.sendAlert(alertUnsupportedCertificate)
 				return fmt.Errorf("tls: pubkey type of cert is error, expect sm2.publicKey")
 			}
